@@ -772,6 +772,10 @@ pub fn check(ctx: &Ctx) -> i32 {
     for c in fc {
         items.push(Item::Frag(c, fdepth));
     }
+    // one level deeper on the ordinary configurations (accept / reject / accept / flush shapes)
+    for ts in [90000u32, 1000] {
+        items.push(Item::Frag(FragmentConfig { timescale: ts, ..Default::default() }, fdepth + 1));
+    }
     let boundary: Vec<u8> = vec![0x00, 0x01, 0x7f, 0x80, 0xff, 0x03, 0x0a, 0x49];
     let prof = std::env::var("VERIF_PROFILE").is_ok();
     let mut tally = par_items(&items, ctx.seed, |idx, it, t| { let t0 = std::time::Instant::now(); match it {
